@@ -73,6 +73,9 @@ type replayFile struct {
 	ShrinkArrays []string `json:"shrink_arrays"`
 	ShrinkInts   []string `json:"shrink_ints"`
 	Trace        []string `json:"trace,omitempty"`
+	// Prelude: run this many preceding seeds first (state kept across calls of the code
+	// under test can make a violation depend on what the process did before)
+	Prelude int `json:"prelude,omitempty"`
 }
 
 var polyKinds = map[string]bool{"polygon": true, "multipolygon": true}
@@ -1126,6 +1129,16 @@ func candidates(t *testing.T, job *simh.Job, out *simh.Out) {
 		onFatal = func(v *simh.Violation) {
 			out.Line(map[string]interface{}{"t": "cand", "cand": ci, "class": v.Class, "message": v.Message})
 			os.Exit(0)
+		}
+		for k := rf.Prelude; k >= 1; k-- {
+			if rf.Seed >= uint64(k) {
+				pw, pfp, pmp, pms := genWorkload(rf.Seed-uint64(k), rf.Mix)
+				if rf.Engine == "pipesim-free" {
+					runFree(&pw)
+				} else {
+					runSim(t, &pw, pfp, pmp, pms, rf.Seed-uint64(k), nil, false, false)
+				}
+			}
 		}
 		if rf.Engine == "pipesim-free" {
 			if v := runFree(&rf.Workload); v != nil {
